@@ -68,6 +68,21 @@ theorem codeSecure_eq_specSecure (E : BlockFn) (hE : E.Len16) (key : Bytes) (scf
     simp only [ctrXor2, ctrXor, List.length_append, Except.map, SecureData.toKnx]
     rw [Ctr0_eq_pre, ctrStream_eq_spec E key _ _ hn, htl]
 
+/-- The declarations the model reads from the code (regenerated on every run) are the
+ones the theorems assume: exactly the two algorithms, 3-bit services, 4-bit frame formats,
+the A_Sec APCI `0x3F1` split into the two `block_0` octets, the 48-bit maximum and the
+Address Type bit. A changed declaration breaks this proof. -/
+theorem generated_tables_wf :
+    (∀ a ∈ Generated.DataSecure.algorithms, a.1 = algAuth ∨ a.1 = algEnc) ∧
+    (∀ s ∈ Generated.DataSecure.services, s.1 < 8) ∧
+    (∀ f ∈ Generated.DataSecure.frameFormats, f.1 < 16) ∧
+    Generated.DataSecure.apciSec = apciSecHigh * 256 + apciSecLow ∧
+    Generated.DataSecure.apciSecIsExt = true ∧
+    sequenceNumberMax = 2 ^ 48 - 1 ∧
+    Generated.DataSecure.addressTypeGroupBit = 0x80 ∧
+    Generated.DataSecure.addressTypeIndividualBit = 0 ∧
+    algAuth = 0 ∧ algEnc = 1 ∧ svcData = 0 := by decide
+
 /-- The AES-128 model has 16-octet outputs, so the theorem applies to it. -/
 theorem aes_len16 : BlockFn.Len16 AES128.encrypt := AES128.encrypt_length
 
